@@ -44,6 +44,9 @@ type Config struct {
 	Update   int   `json:"update"`    // -1: no update; otherwise number of route-specific middleware after Update
 	// RouteRedirect: trailing-slash redirection is enabled on route A only (router-wide flag off)
 	RouteRedirect bool `json:"route_redirect,omitempty"`
+	// GlobalIgnore (only with RouteRedirect): the router ignores trailing slashes by default and route A
+	// overrides that with its own redirect option
+	GlobalIgnore bool `json:"global_ignore,omitempty"`
 	// APat selects route A's pattern: 0 "/a", 1 "/f/*{p}/m" (infix catch-all with a suffix), 2 "/a/{p}"
 	APat int `json:"a_pattern,omitempty"`
 }
@@ -51,7 +54,7 @@ type Config struct {
 var aPatterns = []struct{ pat, req string }{{"/a", "/a"}, {"/f/*{p}/m", "/f/x/y/m"}, {"/a/{p}", "/a/v"}}
 
 func (c Config) String() string {
-	return fmt.Sprintf("routeA=%s globals(masks)=%v default=%v@%d routeA-mws=%d update=%d redirect-per-route=%v", aPatterns[c.APat].pat, c.Globals, c.Default, c.DefPos, c.RouteMws, c.Update, c.RouteRedirect)
+	return fmt.Sprintf("routeA=%s globals(masks)=%v default=%v@%d routeA-mws=%d update=%d redirect-per-route=%v router-wide-ignore=%v", aPatterns[c.APat].pat, c.Globals, c.Default, c.DefPos, c.RouteMws, c.Update, c.RouteRedirect, c.GlobalIgnore)
 }
 
 func expected(cfg Config, kind int, routeIDs []string, h string) string {
@@ -105,6 +108,8 @@ func evalConfig(cfg Config) (class, msg string) {
 		fox.WithNoRouteHandler(handler("NR")), fox.WithNoMethodHandler(handler("NM")), fox.WithOptionsHandler(handler("OP")))
 	if !cfg.RouteRedirect {
 		opts = append(opts, fox.WithRedirectTrailingSlash(true))
+	} else if cfg.GlobalIgnore {
+		opts = append(opts, fox.WithIgnoreTrailingSlash(true))
 	}
 	f, err := fox.New(opts...)
 	if err != nil {
@@ -225,6 +230,13 @@ func configs(quick bool) []Config {
 					}
 				}
 			}
+		}
+	}
+	// a router-wide ignore mode overridden by route A's own redirect option
+	for _, c := range out[:len(out):len(out)] {
+		if c.RouteRedirect && len(c.Globals) <= 2 {
+			c.GlobalIgnore = true
+			out = append(out, c)
 		}
 	}
 	// route A on other pattern shapes (cached sub-nodes of infix catch-alls, parameters)
